@@ -119,9 +119,11 @@ def undo(impl, req, accept, enabled, threshold, rep):
 
 
 def check_e2e(case, ctx=None):
-    impl, datas, accept, enabled, thr_mode, index, variant = case
+    impl, datas, accept, enabled, thr_mode, index, variant = case[:7]
+    second = case[7] if len(case) > 7 else None          # (payload, accept, index) of a 2nd poll
     rep = {'impl': impl, 'payloads': [rm.tag(d) for d in datas], 'accept_encoding': accept,
-           'http_compression': enabled, 'threshold': thr_mode, 'index': index, 'variant': variant}
+           'http_compression': enabled, 'threshold': thr_mode, 'index': index, 'variant': variant,
+           'second': [rm.tag(second[0]), second[1], second[2]] if second else None}
     expected = rm.SEP.join(rm.ref_encode(4, d, True) for d in datas)
     elen = len(expected.encode('utf-8'))
     thr = {'zero': 0, 'len-1': max(0, elen - 1), 'len': elen, 'len+1': elen + 1,
@@ -186,6 +188,31 @@ def check_e2e(case, ctx=None):
                     '%s|%s|%s' % (enc, 'jsonp' if index is not None else 'plain',
                                   char_class(expected)),
                     'expected %r, client decodes %r' % (expected[:80], value[:80]), rep)
+        if second is not None and variant == 'poll':
+            # the same server answers another, differently shaped poll: nothing may carry over
+            d2, accept2, index2 = second
+            exp2 = rm.ref_encode(4, d2, True)
+            w.call('send', sid, d2)
+            w.settle()
+            h2 = [('Host', 'localhost')] + ([('Accept-Encoding', accept2)]
+                                            if accept2 is not None else [])
+            r2 = w.http('GET', q + '&sid=' + sid + ('' if index2 is None else '&j=%d' % index2),
+                        headers=h2)
+            w.settle()
+            if not r2.done or r2.status != 200 or r2.exc is not None:
+                raise V(impl, 'poll-not-answered-200', 'second|status=%s' % r2.status,
+                        'second poll: done=%s status=%s exc=%r' % (r2.done, r2.status, r2.exc), rep)
+            plain2, enc2 = undo(impl, r2, accept2, enabled, thr, rep)
+            try:
+                text2 = plain2.decode('utf-8')
+                value2 = rm.parse_jsonp(text2)[1] if index2 is not None else text2
+            except (UnicodeDecodeError, rm.JsSyntaxError) as e:
+                raise V(impl, 'second-response-garbled', '%s-then-%s' % (enc, enc2),
+                        'second poll body %r: %r' % (plain2[:60], e), rep)
+            if not rm.utf16_equal(value2, exp2):
+                raise V(impl, 'payload-changed-by-transformation', 'second|%s-then-%s' % (enc, enc2),
+                        'second poll: expected %r, client decodes %r' % (exp2[:60], value2[:60]),
+                        rep)
         if ctx:
             cls = [impl, 'e2e-' + variant, 'enc-%s' % enc,
                    'jsonp' if index is not None else 'no-jsonp', 'thr-' + thr_mode]
@@ -212,7 +239,9 @@ e2e_st = st.tuples(st.sampled_from(['thread', 'async']),
                    st.lists(payload_st, min_size=1, max_size=4), accept_st, st.booleans(),
                    st.sampled_from(['zero', 'len-1', 'len', 'len+1', 'default', 'huge']),
                    st.one_of(st.none(), st.integers(0, 9999)),
-                   st.sampled_from(['poll', 'poll', 'poll', 'open']))
+                   st.sampled_from(['poll', 'poll', 'poll', 'open']),
+                   st.one_of(st.none(), st.tuples(st.one_of(st.just('tiny'), payload_st), accept_st,
+                                                  st.one_of(st.none(), st.integers(0, 99)))))
 direct_st = st.tuples(st.lists(st.tuples(st.integers(0, 6), st.one_of(st.none(), adv_text)) |
                                st.tuples(st.just(4), st.binary(max_size=8)),
                                min_size=0, max_size=5), st.integers(0, 10 ** 6))
@@ -281,5 +310,7 @@ def replay(case, ctx):
     if 'direct' in case:
         check_direct([(t, rm.untag(d)) for t, d in case['direct']], case['index'])
     else:
+        sec = case.get('second')
         check_e2e((case['impl'], [rm.untag(d) for d in case['payloads']], case['accept_encoding'],
-                   case['http_compression'], case['threshold'], case['index'], case['variant']))
+                   case['http_compression'], case['threshold'], case['index'], case['variant'],
+                   (rm.untag(sec[0]), sec[1], sec[2]) if sec else None))
